@@ -113,15 +113,19 @@ def Len.clocks : Nat → Len → Len
 
 /-- NRx4 write, documented: the extra length clock when length becomes enabled in the first half of
     a frame-sequencer period (the next step does not clock length) – it can switch the channel off
-    unless the same write triggers; a trigger reloads an expired counter with M, less the extra clock
-    again if length is enabled; the status bit after a trigger is the DAC state `dacOk` (for channel 1
-    together with "the sweep calculation did not overflow") -/
+    unless the same write triggers; a trigger reloads an EXPIRED counter with M, less the extra clock
+    again if length is enabled in the first half; the status bit after a trigger is the DAC state
+    `dacOk` (for channel 1 together with "the sweep calculation did not overflow") -/
 def Len.writeNRx4 (M : Nat) (l : Len) (le trig firstHalf dacOk : Bool) : Len :=
-  let c1 := if !l.enable && le && decide (l.count > 0) && firstHalf then l.count - 1 else l.count
-  let on1 := if !l.enable && le && decide (l.count > 0) && firstHalf then l.on && !(decide (c1 = 0) && !trig) else l.on
-  if trig then
-    let c2 := if c1 = 0 then M else c1
-    ⟨dacOk, le, if le && decide (c2 = M) && firstHalf then c2 - 1 else c2⟩
+  let extra := !l.enable && le && decide (l.count > 0) && firstHalf
+  let c1 := if extra then l.count - 1 else l.count
+  let on1 := if extra then l.on && !(decide (c1 = 0) && !trig) else l.on
+  if trig then ⟨dacOk, le, if c1 = 0 then (if le && firstHalf then M - 1 else M) else c1⟩
   else ⟨on1, le, c1⟩
+
+/-- the corner the documentation and the property text leave open (DESIGN §8): a trigger in the first
+    half with length ALREADY enabled and the counter exactly full -/
+def Len.fullRetrigger (M : Nat) (l : Len) (le trig firstHalf : Bool) : Prop :=
+  trig = true ∧ le = true ∧ firstHalf = true ∧ l.enable = true ∧ l.count = M
 
 end Tetro.Spec.Apu
